@@ -128,12 +128,13 @@ CHECKS = {
         pkg="props/c07", level="exploration",
         technique="model-based property testing (rapid): generated submitters and retry-provoking fault scripts, order oracle over the fake broker's partition logs",
         level_text=("Writer scenarios biased to ordering (1-2 partitions, batch size 1-3, 1-3 submitters, sync and async, lost acks / temporary errors / cuts / leader moves on chosen produce requests). "
-                    "Oracle: inside every appended copy the submitter's order is kept, every copy of an earlier batch precedes every copy of a later one, and per submitter the first occurrences in the log are in submission order. Further strata: a slow Logger (user callbacks as schedule perturbation), the batch timer of a partial batch racing with a call that fills the next batch, a stampede of simultaneous first submissions to one partition, a broker that stops reading in the middle of a produce request for longer than WriteTimeout and then reads on (write stall); the order rules are evaluated on what was appended also when Close hangs; permanent errors and slow answers are part of the fault menu."),
+                    "Oracle: inside every appended copy the submitter's order is kept, every copy of an earlier batch precedes every copy of a later one, and per submitter the first occurrences in the log are in submission order. Further strata: a slow Logger (user callbacks as schedule perturbation), the batch timer of a partial batch racing with a call that fills the next batch, a stampede of simultaneous first submissions to one partition, a broker that stops reading in the middle of a produce request for longer than WriteTimeout and then reads on (write stall); the order rules are evaluated on what was appended also when Close hangs; permanent errors and slow answers are part of the fault menu. TestFlood: one call that completes 400-3000 batches of 2-3 messages for one partition and leaves a partial batch open, under a BatchTimeout of 5-80 microseconds, next to 0-2 submitters hammering short calls into the same partition (batches must reach the partition queue in the order they were sealed)."),
         level_note="interleavings of submitters, batch timers and retries are sampled; trusts the fake broker to append requests in arrival order",
         rule=("case = writer scenario (see C01) with ordering bias; non-trivial = some partition received >= 2 distinct batches and at least one batch was sent more than once; "
               "distinct by (partitions, batch size, mode, balancer, fault multiset, labels)."),
         assumptions=["message values carry (submitter, call, index) so that the log can be compared with submission order"],
-        units=[dict(run="TestOrder", checks_quick=400, checks_thorough=1500, shards_quick=4, shards_thorough=16, timeout=1500)],
+        units=[dict(run="TestOrder", checks_quick=400, checks_thorough=1500, shards_quick=4, shards_thorough=16, timeout=1500),
+               dict(run="TestFlood", checks_quick=25, checks_thorough=250, shards_quick=2, shards_thorough=8, timeout=900)],
     ),
     "C08": dict(
         pkg="props/c08", level="exploration",
